@@ -225,3 +225,37 @@ class Roles:
         if x.op == "bin" and x.info == op:
             return self.flatten(x.args[0], op) + self.flatten(x.args[1], op)
         return [x]
+
+
+
+def early_exits(sem, vis, member_bb, allowed_fact=None):
+    """exit edges of the loop (cycle-containing SCC) around block `member_bb` that can lead to a
+    success exit of the function and are neither the iterator's exhaustion edge nor an edge
+    carrying `allowed_fact`: [(src, dst, line)]"""
+    from ..cfg import sccs
+    be = vis.be
+    cfg = be.cfg
+    loop = None
+    for comp in sccs(cfg):
+        if member_bb in comp:
+            if loop is None or len(comp) < len(loop):
+                loop = comp
+    if loop is None:
+        return None
+    oks = {bb for (bb, idx, kind, x) in sem.ret_sites(be) if kind in ("ok", "libcall", "unknown", "call")}
+    out = []
+    for u in sorted(loop):
+        facts = sem.edge_facts(be, u) if vis.body.blocks[u].term.kind == "switch" else {}
+        for v in cfg.succ[u]:
+            if v in loop:
+                continue
+            fl = facts.get(v, [])
+            if any(f[0] == "variant" and f[2] == "None" and f[1].op == "call" and f[1].info.endswith("Iterator::next") for f in fl):
+                continue
+            if allowed_fact is not None and any(allowed_fact(f, vis.resolve) for f in fl):
+                continue
+            # does this exit lead to a success exit?
+            r = cfg.reach([v])
+            if any(b in r for b in oks):
+                out.append((u, v, vis.body.blocks[u].term.line))
+    return out
